@@ -93,12 +93,14 @@ def s_action():
 
 
 def s_event_monitor():
-    return st.fixed_dictionaries({"srcs": st.lists(st.sampled_from(TRIGGERS), max_size=10),
+    return st.fixed_dictionaries({"srcs": st.one_of(st.lists(st.sampled_from(TRIGGERS), max_size=10),
+                                                    st.lists(st.sampled_from(TRIGGERS), min_size=60, max_size=70)),
                                   "trigger": st.sampled_from(TRIGGERS)})
 
 
 def s_csr_event_monitor():
-    return st.fixed_dictionaries({"srcs": st.lists(st.sampled_from(TRIGGERS), max_size=20),
+    return st.fixed_dictionaries({"srcs": st.one_of(st.lists(st.sampled_from(TRIGGERS), max_size=20),
+                                                    st.lists(st.sampled_from(TRIGGERS), min_size=60, max_size=75)),
                                   "trigger": st.sampled_from(TRIGGERS),
                                   "dw": st.sampled_from([1, 4, 8, 8, 16]),
                                   "al": st.integers(0, 3)})
